@@ -17,13 +17,15 @@ import struct
 
 from mc import core, explore, lap
 from mc.world import World, Monitor
-from mc.pair import DeliveryMonitor, app_send, payload, quiescent, RETRY
+from mc.pair import DeliveryMonitor, app_send, payload, quiescent, RETRY, add_bystander
 from mpgameserver.connection import ConnectionStatus
 
 PROPERTY = "C07"
 LEVEL = "model_checking"
 
-SIZES = {"small": 40, "empty": 0, "frag2": 1700, "frag3": 2600, "P": 1434, "frag40": 40 * 1024 + 100}
+SIZES = {"small": 40, "empty": 0, "frag2": 1700, "frag3": 2600, "P": 1434, "frag40": 40 * 1024 + 100,
+         # the last fragment is as large as a fragment may be (remainder = P-6), one byte more, and what would fit WITHOUT its header
+         "fragEdge": 1024 + 1428, "fragEdge+1": 1024 + 1429, "fragEdgeP": 1024 + 1434, "fragEdge2": 2048 + 1431}
 FATES = ["drop", "dup", "delay2", "delay8", "delay70"]
 TIMEOUT = 1.0
 
@@ -37,7 +39,7 @@ class CallbackMonitor(DeliveryMonitor):
 
     def on_send(self, w, d):
         DeliveryMonitor.on_send(self, w, d)
-        if d.src == "x" or len(d.data) < 20:
+        if d.src == "x" or len(d.data) < 20 or d.client_addr != w.clients[0].addr:
             return
         conn = w.server_conn(0) if d.src == "s" else w.clients[0].conn
         if conn is None:
@@ -131,7 +133,7 @@ def scenario(params, ch):
             t1, G, D = (int(x) for x in o[5:].split(":"))
             reorder = AckReorder("s" if direction == "c2s" else "c", "s2c" if direction == "c2s" else "c2s", t1, G, D)
             monitors.append(reorder)
-    w = World(order=order, latency=latency, chooser=ch, monitors=monitors, dt=dt,
+    w = World(n_clients=(2 if "by" in opts else 1), order=order, latency=latency, chooser=ch, monitors=monitors, dt=dt,
               server_cfg=({"setKeepAliveInterval": ka} if ka else None), client_cfg=({"setKeepAliveInterval": ka} if ka else None))
     sender = direction[0]
     try:
@@ -140,6 +142,9 @@ def scenario(params, ch):
         if "wrap" in opts:
             w.run(4)
             w.preset_near_wrap()
+        if "by" in opts:
+            add_bystander(w, mon)     # a second client of the same server exchanging traffic of every kind, perfect link
+            w.run(3)
         w.fates = FATES
         if "cbraise" in opts:
             # the application's callback of the FIRST message raises when it is told False / whenever it is called
@@ -299,6 +304,14 @@ def params_list(tier):
         for msgs in ((("small", "retry"), ("small", "none")), (("frag2", "retry"),), (("small", "best"),), (("frag2", "none"),)):
             out.append((direction, msgs, None, 0, "cs|wrap", 1))
             out.append((direction, msgs, ("s2c" if direction == "c2s" else "c2s", 0, 70), 0, "cs|wrap", 1))
+        # fragmented messages whose last fragment sits at the capacity boundary
+        for size in ("fragEdge", "fragEdge+1", "fragEdgeP", "fragEdge2"):
+            for retry in (("none", "retry") if tier == "quick" else ("none", "retry", "best")):
+                out.append((direction, ((size, retry),), None, 0, "cs", 1))
+        # a second client of the same server exchanges traffic of every kind all the time
+        for msgs in ((("small", "none"),), (("small", "retry"), ("small", "none")), (("frag2", "retry"),), (("small", "best"),)):
+            out.append((direction, msgs, None, 0, "cs|by", 1))
+            out.append((direction, msgs, ("s2c" if direction == "c2s" else "c2s", 0, 13), 0, "cs|by", 1))
         # overtaken by more than a message window of newer messages
         for msgs in ((("small", "none"),), (("small", "retry"),), (("small", "best"),), (("small", "retry"), ("small", "none")), (("frag2", "retry"),)):
             out.append((direction, msgs, None, 0, "cs|overtake", 1))
